@@ -34,12 +34,16 @@ CONNECT_RULE = ("random scripts of 1-8 attempts {transport error, cancellation i
                 "body kinds none / NoBody / body without GetBody / with GetBody / GetBody failing after k calls; OnRetry set or not; an initial Last-Event-ID header "
                 "sometimes present; Backoff: microsecond intervals, Jitter -1, Multiplier 1 / 1.5 / 2, MaxInterval unset / = initial / 2x, MaxRetries -1 / 0 / 1 / 2 / 3 / 5, "
                 "MaxElapsedTime unset / 1 ns / 1 h; server retry values >= 0.9 s lead to cancellation inside OnRetry; plus a sweep: endings (EOF / error / "
-                "cancellation / a read error that wraps io.EOF) after every byte position of six short streams; corpus: D3 / D3b / D6 witnesses and C10 / C12 scenarios. "
+                "cancellation / a read error that wraps io.EOF / read errors that are, wrap or match a sentinel: 20 characters) after every byte position of six short streams (event boundary, mid-line, after a CR); corpus: D3 / D3b / D6 witnesses and C10 / C12 scenarios. "
                 "Every injected error (transport, validator verdict, reader, GetBody) is a value of a random character: plain, Temporary() true, Timeout() true, wrapping io.EOF / "
                 "io.ErrUnexpectedEOF / os.ErrDeadlineExceeded, *net.OpError around a wrapped io.EOF, network errors as they really look (*net.OpError{Op:dial} around ECONNREFUSED, "
                 "*net.OpError{Op:read} around ECONNRESET, both also inside a *url.Error, *net.DNSError alone and inside a dial error), and errors that are / wrap / match (Is method, as "
-                "http.Client.Timeout's and a dialer's timeout errors do) context.DeadlineExceeded or context.Canceled while the request context is alive - projected by identity (errors.As on "
-                "the harness's own type first, == for the bare sentinels), the model takes the index as opaque; plus a sweep: every character at every site (transport, reader, validator, GetBody at "
+                "http.Client.Timeout's and a dialer's timeout errors do) context.DeadlineExceeded or context.Canceled while the request context is alive, errors that ARE a well-known sentinel "
+                "(io.ErrUnexpectedEOF - what net/http returns for a body shorter than its Content-Length -, bufio.ErrTooLong, the library's own ErrUnexpectedEOF and ErrNoGetBody, "
+                "os.ErrDeadlineExceeded, io.ErrClosedPipe, io.ErrNoProgress, net.ErrClosed, http.ErrBodyReadAfterClose, io.ErrShortBuffer, ECONNRESET, http.ErrHandlerTimeout) and errors that "
+                "wrap bufio.ErrTooLong / sse.ErrUnexpectedEOF / sse.ErrNoGetBody or match io.EOF / the ErrUnexpectedEOFs / bufio.ErrTooLong through an Is method - projected by identity (errors.As on "
+                "the harness's own type first, == for the bare sentinels and only for the one injected in the current attempt: sse.ErrUnexpectedEOF and io.ErrUnexpectedEOF are different "
+                "values, so 'the injected value came back' and 'the library's own sentinel came back' are told apart), the model takes the index as opaque; plus a sweep: every character at every site (transport, reader, validator, GetBody at "
                 "its first / second call) with every body kind, followed by two more attempts. The request context is of a random kind: WithCancel, WithCancelCause ended with a cause of its own "
                 "(one that wraps context.Canceled included), a WithCancel / WithValue / WithTimeoutCause child of such a context, a deadline with a cause that expires at the scripted instant "
                 "(a Context whose Err() turns context.DeadlineExceeded when the harness says so) or that passed before Connect (real WithDeadlineCause); plus a sweep: every kind ended at every "
@@ -53,7 +57,23 @@ CONNECT_RULE = ("random scripts of 1-8 attempts {transport error, cancellation i
                 "rejecting} x {no body, one event, a cut line}, two more attempts behind. Retry values that are NEAR-NUMERALS (half of the invalid retry fields, and a sweep of ~120 values "
                 "alone / after a valid field): a positive numeral with white space (SP, two SP, TAB, VT, FF, NEL, NBSP, U+2000, U+2028, U+2029, U+3000) before it beyond the one space of "
                 "the field syntax, after it, around it or inside it, with a sign, unit, fraction, exponent, base prefix, digit separator, or in non-ASCII digits - all ignored, the wait stays "
-                "what it was. Non-trivial = distinct scripts (every one runs Connect on a real Connection).")
+                "what it was. THE SAME CONNECTION CONNECTED AGAIN (1500 random scenarios quick / 30000 thorough, and a sweep of ~900): Connect returns for a reason other than the context - "
+                "MaxRetries -1 (one attempt per call, the application loops itself), retries 1 / 2 used up by failures or by a stream's end plus failures, a rejected response, a body-reset error - "
+                "and is called again on the same *Connection, 2-4 calls, one script per call (a call that ends with the context's error or runs out of script ends the scenario); streams from the grammar and "
+                "from twelve small bodies that set / change / reset / do not touch the ID or are cut before dispatch, every ending, every error character, every body kind (none, NoBody, no GetBody, GetBody, "
+                "GetBody failing at its first / second / third call), OnRetry set or not, an initial header sometimes, every context kind; observed per call: requests (header, body generation incl. a re-sent "
+                "consumed body), events, OnRetry, return value; sweep: body kind x {one attempt, one retry per call} x how the first call ends (each small body, a read error in mid-line, a transport error, a "
+                "rejection after / without a stream) x what the second call's stream does to the ID, two more calls behind. "
+                "Non-trivial = distinct scripts (every one runs Connect on a real Connection).")
+
+AGAIN_NOTE = (" Several Connect calls on one Connection: the state carried from call to call (c.lastEventID, c.isRetry, the request's Last-Event-ID header and Body, "
+              "the number of GetBody calls) is part of the PROVED model (Connect.v: connect_loop_st returns it, connect_runs threads it; theorems C10_again_* / C11_again_* / C12_again_schedule) - "
+              "nothing about a later call's initial state is covered by correspondence only. By correspondence, as for a single call: that the harness's scripted request body, GetBody and "
+              "RoundTripper behave as net/http's would. The model makes a further call exactly while the last one returned something else than the context's error; a Connect call on a context "
+              "that is already done (after such a return) is not part of the scenarios (it is the 'cancelled before Connect' case of the single-call scripts). Each call has a backoff controller of "
+              "its own (client_connection.go:198): its waits start at InitialInterval and no retry is counted, so a retry value the server sent during an EARLIER call is forgotten when that call "
+              "returns - the model, the C12 oracle and C12_again_schedule take the property's 'the retry value the server sent on the preceding connection' per Connect call; whether it should survive "
+              "a return of Connect is not decided by the property text and is not reported.")
 
 PROPS["C10"] = {
     "families": ["connect_c10"],
@@ -63,8 +83,14 @@ PROPS["C10"] = {
                    "streams that dispatch nothing leave it unchanged; request number j carries the j-th GetBody result, requests without a body never get one, a missing "
                    "GetBody ends Connect with ErrNoGetBody after the first request and a failing GetBody with its own error, before any further request. Model = code is "
                    "checked on every run with a real Client/Connection behind a scripted RoundTripper (headers, body generation incl. detection of a re-sent consumed body, "
-                   "events, OnRetry, return value compared exactly), and an oracle recomputes the expected header/body of every observed request from the specification."),
-    "level_note": CLIENT_NOTE + CONNECT_NOTE,
+                   "events, OnRetry, return value compared exactly), and an oracle recomputes the expected header/body of every observed request from the specification. "
+                   "The same Connection connected again (Connect returned for a reason other than the context and is called again, any number of times): the model of one call also "
+                   "returns the Connection as the call leaves it (lastEventID, isRetry, the request's header and body generation, GetBody calls so far), the next call starts from exactly that "
+                   "with a backoff controller of its own, and it is proved for every list of scripts that the requests of ALL calls are those specified for ONE call over the attempts made: request "
+                   "number k+2 counted over all calls - so also the FIRST request of a later call - carries header_of(the ID after the k+1 attempts before it), request number j carries the j-th "
+                   "GetBody result (a consumed body is never sent again), a body without GetBody allows one request in all and every later call returns ErrNoGetBody without a request, a failing "
+                   "GetBody its own error; every later call is one call from a state with isRetry set, so the single-call theorems (stated for an arbitrary state) apply to it."),
+    "level_note": CLIENT_NOTE + CONNECT_NOTE + AGAIN_NOTE,
     "rule": CONNECT_RULE,
     "assumptions": ["requests whose IDs are not valid HTTP field values are outside (a real Transport rejects them; the scripted RoundTripper does not)",
                     "NUL-containing ids, ids of undispatched events: handled inside the specification interpreter (C01 ties the parser to it); shown here by Examples and by the correspondence"],
@@ -83,11 +109,13 @@ PROPS["C11"] = {
                    "checked on every run (real Connection behind a scripted RoundTripper; Connect's return projected with errors.Is / errors.As, injected errors carry "
                    "an index; attempts counted at the RoundTripper), and an oracle re-derives the expected outcome of every observed run from the property text. The clause about sse.Read (a read error is yielded as "
                    "itself, ErrUnexpectedEOF only for a clean end in mid-line, nothing for a clean end after a terminated line) is proved for the specification "
-                   "interpreter in Read mode and checked on the real sse.Read over a scripted reader (family read_c11)."),
-    "level_note": CLIENT_NOTE + CONNECT_NOTE,
+                   "interpreter in Read mode and checked on the real sse.Read over a scripted reader (family read_c11). Several Connect calls on one Connection (see C10): no call returns nil, "
+                   "and the classification holds of every call with the controller starting anew (C11_again_never_nil, C11_again_classification)."),
+    "level_note": CLIENT_NOTE + CONNECT_NOTE + AGAIN_NOTE,
     "rule": CONNECT_RULE + " Family read_c11: sse.Read over the same stream grammar with clean / erroneous endings, all chunkings, the end reported with or after the last "
-            "bytes, plus endings (clean, and a read error of each character) after every byte position of seven short streams; read errors of every character (see above: also values "
-            "that wrap io.EOF / io.ErrUnexpectedEOF, network errors, context look-alikes, projected by identity); corpus: D3 / D3b witnesses.",
+            "bytes, plus endings (clean, and a read error of each of the 38 characters) after every byte position of seven short streams; read errors of every character (see above: also values "
+            "that wrap io.EOF / io.ErrUnexpectedEOF, network errors, context look-alikes, and values that ARE io.ErrUnexpectedEOF / bufio.ErrTooLong / sse.ErrUnexpectedEOF / context.Canceled ..., "
+            "projected by identity); corpus: D3 / D3b witnesses, sentinel read errors at an event boundary / in mid-line / after a CR / on an empty stream.",
     "assumptions": ["events larger than the scanner buffer (bufio.ErrTooLong) are outside the streams generated here (C20)",
                     "the context is cancelled only at the instants a script can name: inside RoundTrip, inside Read, inside OnRetry before a wait >= 0.9 s"],
 }
@@ -108,7 +136,7 @@ PROPS["C12"] = {
                    "returned by next(); the real Connect (Jitter -1, microsecond intervals) is compared with it on every run: OnRetry durations, attempt counts, return, "
                    "and (one-sided, on the monotonic clock) that no attempt starts before the wait handed to OnRetry has passed since that call. "
                    "Validated by correspondence only: IEEE-754 behaviour (dyadic factors only), int64 range, the wall clock inside a real Connect."),
-    "level_note": CLIENT_NOTE,
+    "level_note": CLIENT_NOTE + AGAIN_NOTE,
     "rule": ("class A: random configurations over {initial <=0, 1 ns .. 1 s} x Multiplier {1, 9/8, 5/4, 3/2, 7/4, 2, 3, 4, <1 (default)} x Jitter {-1, 1/8 .. 127/128, "
              "0, 1, 3/2, negative (default)} x MaxInterval {unset, = initial, below initial, 2x, 7x} x MaxRetries {-1, 0, 1, 2, 3, 5} x MaxElapsedTime "
              "{unset, out of reach, long exceeded} with histories of <= 14 operations {attempt end with dyadic draw incl. 0 and 1-2^-s, success, retry n incl. 0 "
